@@ -729,10 +729,17 @@ def op_exitstatus(op, oid, ctx):
             ready = bool(mpwait([p.sentinel], 0))
             st, _pp = proc_state(p.pid)
             early.append([ready, st, time.monotonic() - t0])
-        for (how, code, p, t0), e in zip(procs, early):
-            p.join()
+        for k, ((how, code, p, t0), e) in enumerate(zip(procs, early)):
+            timed = k % 2 == 1
+            if timed:
+                # the other documented way of collecting a process: wait for its sentinel, then join with a time limit;
+                # once the sentinel has fired the status must be available
+                mpwait([p.sentinel], 60)
+                p.join(timeout=20)
+            else:
+                p.join()
             ready_after = bool(mpwait([p.sentinel], 0))
-            out.append({"how": how, "code": code, "exitcode": p.exitcode, "sentinel_early": e[0], "state_early": e[1], "age_early": round(e[2], 3), "sentinel_after": ready_after, "pid": p.pid})
+            out.append({"how": how, "code": code, "exitcode": p.exitcode, "timed_join": timed, "alive_after_join": p.is_alive(), "sentinel_early": e[0], "state_early": e[1], "age_early": round(e[2], 3), "sentinel_after": ready_after, "pid": p.pid})
     return {"results": out}
 
 
